@@ -10,6 +10,10 @@
 //! without `rt:`) resolves `shared()` by itself. Observers therefore use an early reference, a fresh one,
 //! or the macro default path, and some of their emits run user code inside `emit` (a slow `ToEvent`, a
 //! slow `when:` filter) so that initialisation can complete while an emit is in flight.
+//!
+//! A child may also initialise BOTH global slots (`GCase::layout`): shared first and then a race on internal,
+//! internal first and then a race on shared, or two sets of initialisers released by the same barrier. The
+//! oracle is applied per slot; a "loser" is any attempt that REPORTED failure.
 
 use std::io::{Read, Write};
 use std::panic::{catch_unwind, AssertUnwindSafe};
@@ -29,6 +33,8 @@ pub const CHILD_ARG: &str = "--c20-global-child";
 
 #[derive(Serialize, Deserialize, Debug, Clone)]
 pub struct GInit {
+    /// which global slot this attempt targets when both sets race (layout 4); otherwise implied by the layout
+    pub slot: u8,
     /// 0 = try_init / try_init_internal, 1 = init / init_internal (panics when it loses)
     pub method: u8,
     pub skew: u16,
@@ -37,6 +43,8 @@ pub struct GInit {
 
 #[derive(Serialize, Deserialize, Debug, Clone)]
 pub struct GObs {
+    /// which global runtime this observer uses when both slots are in play; otherwise implied by the layout
+    pub slot: u8,
     /// 0 = a fresh `shared()`/`internal()` at every use, 1 = only the reference taken before the barrier,
     /// 2 = alternate (early, fresh, early, ..), 3 = the macros' default path (`emit!` without `rt:`; shared
     /// slot only, otherwise like 0)
@@ -54,10 +62,52 @@ pub struct GObs {
 
 #[derive(Serialize, Deserialize, Debug, Clone)]
 pub struct GCase {
-    /// 0 = shared, 1 = internal
-    pub slot: u8,
+    /// 0 = shared slot only, 1 = internal slot only,
+    /// 2 = both: the main thread initialises SHARED first, then `inits` race on INTERNAL,
+    /// 3 = both: the main thread initialises INTERNAL first, then `inits` race on SHARED,
+    /// 4 = both: every initialiser targets its own `slot`, all released by the same barrier
+    pub layout: u8,
     pub inits: Vec<GInit>,
     pub observers: Vec<GObs>,
+}
+
+pub const SHARED: u8 = 0;
+pub const INTERNAL: u8 = 1;
+/// tag of the components the main thread installs first in layouts 2 and 3
+pub const FIRST_TAG: u8 = 16;
+
+impl GCase {
+    pub fn layout(&self) -> u8 {
+        self.layout % 5
+    }
+
+    /// the slot the `ix`-th racing initialiser targets
+    pub fn init_slot(&self, ix: usize) -> u8 {
+        match self.layout() {
+            0 => SHARED,
+            1 => INTERNAL,
+            2 => INTERNAL,
+            3 => SHARED,
+            _ => self.inits[ix].slot % 2,
+        }
+    }
+
+    /// the slot the main thread initialises sequentially before the race, if any
+    pub fn first_slot(&self) -> Option<u8> {
+        match self.layout() {
+            2 => Some(SHARED),
+            3 => Some(INTERNAL),
+            _ => None,
+        }
+    }
+
+    pub fn obs_slot(&self, ix: usize) -> u8 {
+        match self.layout() {
+            0 => SHARED,
+            1 => INTERNAL,
+            _ => self.observers[ix].slot % 2,
+        }
+    }
 }
 
 // ---- report (child -> parent) -------------------------------------------------------------------------
@@ -69,6 +119,8 @@ pub const OP_SPAN: u8 = 3;
 
 #[derive(Serialize, Deserialize, Debug, Clone)]
 pub struct GSent {
+    /// the global runtime the operation went through
+    pub slot: u8,
     pub seq: u32,
     pub op: u8,
     /// through the reference taken before initialisation (else: fresh reference / macro default path)
@@ -88,15 +140,20 @@ pub struct GActor {
 
 #[derive(Serialize, Deserialize, Debug, Clone)]
 pub struct GReport {
-    /// 0 lost, 1 won, 2 lost by the documented panic
+    /// per racing initialiser: 0 lost, 1 won, 2 lost by the documented panic
     pub outcomes: Vec<u8>,
+    /// outcome of the main thread's sequential initialisation of the first slot (layouts 2, 3)
+    pub first_outcome: Option<u8>,
     pub init_actors: Vec<GActor>,
     pub observers: Vec<GActor>,
-    pub main_pre: GActor,
-    pub main_post: GActor,
-    pub pre_enabled: bool,
+    /// main thread, per slot [shared, internal]
+    pub main_pre: [GActor; 2],
+    pub main_post: [GActor; 2],
+    pub pre_enabled: [bool; 2],
     pub pre_touched: bool,
-    pub post_enabled: bool,
+    /// is_enabled() of each slot right after the sequential first initialisation
+    pub mid_enabled: [bool; 2],
+    pub post_enabled: [bool; 2],
     pub events: Vec<EvRec>,
     pub calls: Vec<[u32; 6]>,
 }
@@ -211,7 +268,7 @@ impl Actor {
             }
         }
         let enabled_after = enabled_of(self.slot);
-        self.rep.sent.push(GSent { seq, op, early, after_enabled, enabled_after });
+        self.rep.sent.push(GSent { slot: self.slot, seq, op, early, after_enabled, enabled_after });
     }
 
     fn flush(&mut self, early: bool) {
@@ -220,6 +277,14 @@ impl Actor {
             self.rep.problems.push(("flush-returned-false".into(), format!("actor {}: blocking_flush through the global runtime returned false (enabled seen: {})", self.id, self.seen_enabled)));
         }
     }
+}
+
+pub fn main_pre_id(slot: u8) -> u32 {
+    ACTOR_MAIN_PRE + 2 * slot as u32
+}
+
+pub fn main_post_id(slot: u8) -> u32 {
+    ACTOR_MAIN_POST + 2 * slot as u32
 }
 
 fn panic_text(p: Box<dyn std::any::Any + Send>) -> String {
@@ -232,18 +297,15 @@ fn panic_text(p: Box<dyn std::any::Any + Send>) -> String {
     }
 }
 
-fn child_initialiser(c: &GCase, log: &Arc<Log>, barrier: &SpinBarrier, ix: usize) -> (u8, GActor) {
-    let spec = &c.inits[ix];
-    let tag = ix as u8 + 1;
-    let mut actor = Actor::new(c.slot, ACTOR_INIT_BASE + tag as u32);
+/// One initialisation attempt on a global slot with components tagged `tag`.
+/// Returns 0 lost, 1 won, 2 lost by panic; problems are appended to `problems`.
+fn attempt(slot: u8, method: u8, tag: u8, log: &Arc<Log>, problems: &mut Vec<(String, String)>) -> u8 {
     let (e, f, x, k, r) = (TagEmitter(tag, log.clone()), TagFilter(tag, log.clone()), TagCtxt(tag, log.clone()), TagClock(tag, log.clone()), TagRng(tag, log.clone()));
-    barrier.wait();
-    spin(spec.skew as u32);
     // Some(own emitter tag, own ctxt tag) when this thread won
     let attempt = catch_unwind(AssertUnwindSafe(|| -> Option<(u8, u8)> {
-        if c.slot == 0 {
+        if slot == SHARED {
             let setup = emit::setup().emit_to(e).emit_when(f).with_ctxt(x).with_clock(k).with_rng(r);
-            if spec.method % 2 == 0 {
+            if method % 2 == 0 {
                 setup.try_init().map(|init| (init.emitter().0, init.ctxt().0))
             } else {
                 let init = setup.init();
@@ -256,7 +318,7 @@ fn child_initialiser(c: &GCase, log: &Arc<Log>, barrier: &SpinBarrier, ix: usize
                 .with_ctxt(AssertInternal(x))
                 .with_clock(AssertInternal(k))
                 .with_rng(AssertInternal(r));
-            if spec.method % 2 == 0 {
+            if method % 2 == 0 {
                 setup.try_init_internal().map(|init| (init.emitter().0 .0, init.ctxt().0 .0))
             } else {
                 let init = setup.init_internal();
@@ -264,33 +326,43 @@ fn child_initialiser(c: &GCase, log: &Arc<Log>, barrier: &SpinBarrier, ix: usize
             }
         }
     }));
-    let outcome = match attempt {
+    match attempt {
         Ok(Some((et, ct))) => {
             if et != tag || ct != tag {
-                actor.rep.problems.push(("winner-handle-foreign".into(), format!("initialiser #{tag} won but its handle points at emitter #{et} / ctxt #{ct}")));
-            }
-            if spec.post_emit {
-                actor.seen_enabled = true;
-                actor.op(OP_EMIT, false, false, 0);
+                problems.push(("winner-handle-foreign".into(), format!("initialiser #{tag} won but its handle points at emitter #{et} / ctxt #{ct}")));
             }
             1
         }
         Ok(None) => 0,
         Err(p) => {
             let msg = panic_text(p);
-            if spec.method % 2 == 0 || !msg.contains("already initialized") {
-                actor.rep.problems.push(("init-unexpected-panic".into(), format!("initialiser #{tag} (method {}) panicked with {msg:?}", spec.method % 2)));
+            if method % 2 == 0 || !msg.contains("already initialized") {
+                problems.push(("init-unexpected-panic".into(), format!("initialiser #{tag} (method {}) panicked with {msg:?}", method % 2)));
             }
             2
         }
-    };
+    }
+}
+
+fn child_initialiser(c: &GCase, log: &Arc<Log>, barrier: &SpinBarrier, ix: usize) -> (u8, GActor) {
+    let spec = &c.inits[ix];
+    let slot = c.init_slot(ix);
+    let tag = ix as u8 + 1;
+    let mut actor = Actor::new(slot, ACTOR_INIT_BASE + tag as u32);
+    barrier.wait();
+    spin(spec.skew as u32);
+    let outcome = attempt(slot, spec.method, tag, log, &mut actor.rep.problems);
+    if outcome == 1 && spec.post_emit {
+        actor.seen_enabled = true;
+        actor.op(OP_EMIT, false, false, 0);
+    }
     (outcome, actor.rep)
 }
 
 fn child_observer(c: &GCase, barrier: &SpinBarrier, ix: usize) -> GActor {
     let spec = &c.observers[ix];
     // the early reference is taken here, before the barrier, i.e. before any initialiser runs
-    let mut actor = Actor::new(c.slot, ix as u32 + 1);
+    let mut actor = Actor::new(c.obs_slot(ix), ix as u32 + 1);
     barrier.wait();
     spin(spec.skew as u32);
     let mut n = 0u32;
@@ -337,26 +409,31 @@ pub fn child_main() -> ! {
     let log = Log::new();
     let (k, m) = (c.inits.len(), c.observers.len());
 
-    // before any initialisation (the main thread's early reference is taken here as well)
-    let mut main = Actor::new(c.slot, ACTOR_MAIN_PRE);
-    let pre = catch_unwind(AssertUnwindSafe(|| {
-        let enabled = enabled_of(c.slot);
-        main.op(OP_EMIT, false, c.slot == 0, 0);
-        main.op(OP_SPAN, false, false, 0);
-        main.op(OP_SLOW_EVENT, true, false, 1);
-        main.flush(false);
-        main.flush(true);
-        enabled
-    }));
-    let pre_enabled = match pre {
-        Ok(e) => e,
-        Err(p) => {
-            main.rep.problems.push(("pre-init-panicked".into(), format!("using the uninitialised global runtime panicked: {}", panic_text(p))));
-            false
+    // before any initialisation, on both global runtimes (the main thread's early references are taken here)
+    let mut mains = [Actor::new(SHARED, main_pre_id(SHARED)), Actor::new(INTERNAL, main_pre_id(INTERNAL))];
+    let mut pre_enabled = [false; 2];
+    for main in mains.iter_mut() {
+        let slot = main.slot;
+        let pre = catch_unwind(AssertUnwindSafe(|| {
+            let enabled = enabled_of(slot);
+            main.op(OP_EMIT, false, slot == SHARED, 0);
+            main.op(OP_SPAN, false, false, 0);
+            main.op(OP_SLOW_EVENT, true, false, 1);
+            main.flush(false);
+            main.flush(true);
+            enabled
+        }));
+        match pre {
+            Ok(e) => pre_enabled[slot as usize] = e,
+            Err(p) => main.rep.problems.push(("pre-init-panicked".into(), format!("using the uninitialised global runtime panicked: {}", panic_text(p)))),
         }
-    };
+    }
     let pre_touched = !log.events.lock().unwrap().is_empty() || log.total_calls() != 0;
-    let main_pre = std::mem::take(&mut main.rep);
+    let main_pre = [std::mem::take(&mut mains[0].rep), std::mem::take(&mut mains[1].rep)];
+
+    // layouts 2 / 3: one slot is initialised first, sequentially, by this thread
+    let first_outcome = c.first_slot().map(|slot| attempt(slot, 0, FIRST_TAG, &log, &mut mains[slot as usize].rep.problems));
+    let mid_enabled = [enabled_of(SHARED), enabled_of(INTERNAL)];
 
     let barrier = SpinBarrier {
         arrived: AtomicUsize::new(0),
@@ -396,31 +473,37 @@ pub fn child_main() -> ! {
         (ih.into_iter().map(|h| h.join().expect("join")).collect(), oh.into_iter().map(|h| h.join().expect("join")).collect())
     });
 
-    // after the race: a fresh use and a use of the reference taken before initialisation
-    main.id = ACTOR_MAIN_POST;
-    main.seq = 0;
-    let post = catch_unwind(AssertUnwindSafe(|| {
-        main.observe_enabled(0);
-        main.op(OP_EMIT, false, c.slot == 0, 0);
-        main.op(OP_SPAN, false, false, 0);
-        main.op(OP_EMIT, true, false, 0);
-        main.op(OP_SPAN, true, false, 0);
-        main.flush(false);
-        main.flush(true);
-    }));
-    if let Err(p) = post {
-        main.rep.problems.push(("post-init-panicked".into(), format!("using the global runtime after the race panicked: {}", panic_text(p))));
+    // after the race: a fresh use and a use of the reference taken before initialisation, on both runtimes
+    for main in mains.iter_mut() {
+        let slot = main.slot;
+        main.id = main_post_id(slot);
+        main.seq = 0;
+        let post = catch_unwind(AssertUnwindSafe(|| {
+            main.observe_enabled(0);
+            main.op(OP_EMIT, false, slot == SHARED, 0);
+            main.op(OP_SPAN, false, false, 0);
+            main.op(OP_EMIT, true, false, 0);
+            main.op(OP_SPAN, true, false, 0);
+            main.flush(false);
+            main.flush(true);
+        }));
+        if let Err(p) = post {
+            main.rep.problems.push(("post-init-panicked".into(), format!("using the global runtime after the race panicked: {}", panic_text(p))));
+        }
     }
+    let [m0, m1] = mains;
 
     let report = GReport {
         outcomes: init_results.iter().map(|(o, _)| *o).collect(),
+        first_outcome,
         init_actors: init_results.into_iter().map(|(_, a)| a).collect(),
         observers: obs_results,
         main_pre,
-        main_post: main.rep,
+        main_post: [m0.rep, m1.rep],
         pre_enabled,
         pre_touched,
-        post_enabled: enabled_of(c.slot),
+        mid_enabled,
+        post_enabled: [enabled_of(SHARED), enabled_of(INTERNAL)],
         events: log.events.lock().unwrap().clone(),
         calls: log.calls.iter().map(|row| std::array::from_fn(|i| row[i].load(Ordering::Relaxed))).collect(),
     };
@@ -463,41 +546,79 @@ fn run_child(c: &GCase) -> Result<GReport, Fail> {
     vcore::serde_json::from_slice(&out.stdout).map_err(|e| Fail::new("harness/child-report-unreadable", format!("{e}: {}", String::from_utf8_lossy(&out.stdout).chars().take(200).collect::<String>())))
 }
 
-fn judge(c: &GCase, r: &GReport, cx: &mut Cx) -> Res {
-    let k = c.inits.len();
-    let which = if c.slot == 0 { "shared" } else { "internal" };
+const SLOT_NAMES: [&str; 2] = ["shared", "internal"];
 
+fn judge(c: &GCase, r: &GReport, cx: &mut Cx) -> Res {
     // inert before initialisation
-    vassert!(cx, !r.pre_enabled, "pre-init-enabled", "{} slot reports is_enabled() before any initialiser ran", which);
-    vassert!(cx, !r.pre_touched, "pre-init-recorder-touched", "{} slot: something was recorded before any initialisation", which);
-    let all_actors = || r.init_actors.iter().chain(r.observers.iter()).chain([&r.main_pre, &r.main_post]);
+    for slot in [SHARED, INTERNAL] {
+        vassert!(cx, !r.pre_enabled[slot as usize], "pre-init-enabled", "{} slot reports is_enabled() before any initialiser ran", SLOT_NAMES[slot as usize]);
+    }
+    vassert!(cx, !r.pre_touched, "pre-init-recorder-touched", "something was recorded before any initialisation");
+    let all_actors = || r.init_actors.iter().chain(r.observers.iter()).chain(r.main_pre.iter()).chain(r.main_post.iter());
     for a in all_actors() {
         for (sig, msg) in &a.problems {
-            cx.fail(sig.clone(), format!("{which} slot: {msg}"))?;
+            cx.fail(sig.clone(), msg.clone())?;
         }
     }
 
-    // exactly one winner
-    let winners: Vec<u8> = r.outcomes.iter().enumerate().filter(|(_, o)| **o == 1).map(|(i, _)| i as u8 + 1).collect();
-    if k > 0 {
-        vassert!(cx, !winners.is_empty(), "no-initialiser-succeeded", "{} slot: {} initialisers raced, none reports success: {:?}", which, k, r.outcomes);
-        vassert!(cx, winners.len() == 1, "multiple-initialisers-succeeded", "{} slot: {} initialisers raced, {:?} all report success", which, k, winners);
+    // every attempt: (slot, tag, outcome, loses by panic)
+    let mut attempts: Vec<(u8, u8, u8, bool)> = Vec::new();
+    if let (Some(slot), Some(o)) = (c.first_slot(), r.first_outcome) {
+        attempts.push((slot, FIRST_TAG, o, false));
     }
     for (i, o) in r.outcomes.iter().enumerate() {
-        if *o != 1 {
-            vassert_eq!(cx, *o, if c.inits[i].method % 2 == 1 { 2 } else { 0 }, "harness/loss-shape", "{} slot: initialiser #{}", which, i + 1);
-        }
+        attempts.push((c.init_slot(i), i as u8 + 1, *o, c.inits[i].method % 2 == 1));
     }
-    let winner = winners.first().copied();
-    vassert_eq!(cx, r.post_enabled, k > 0, "post-race-enabled-mismatch", "{} slot: is_enabled() after {} initialisers ran", which, k);
-
-    // losers are never invoked
+    // an attempt that REPORTED failure is a loser, whatever the slot did with its components
+    let reported_success: Vec<u8> = attempts.iter().filter(|a| a.2 == 1).map(|a| a.1).collect();
     for (tag, row) in r.calls.iter().enumerate() {
-        if tag == 0 || Some(tag as u8) == winner {
+        if tag == 0 || reported_success.contains(&(tag as u8)) {
             continue;
         }
         for (comp, n) in row.iter().enumerate() {
-            vassert!(cx, *n == 0, "loser-component-invoked", "{} slot: {} of losing initialiser #{} was invoked {} time(s) (winner: {:?})", which, COMPONENT_NAMES[comp], tag, n, winner);
+            let slot = attempts.iter().find(|a| a.1 as usize == tag).map(|a| SLOT_NAMES[a.0 as usize]).unwrap_or("?");
+            vassert!(
+                cx,
+                *n == 0,
+                "loser-component-invoked",
+                "{} slot: {} of initialiser #{}, which reported failure, was invoked {} time(s) (attempts that reported success: {:?})",
+                slot,
+                COMPONENT_NAMES[comp],
+                tag,
+                n,
+                reported_success
+            );
+        }
+    }
+
+    // per slot: exactly one winner
+    let mut winner: [Option<u8>; 2] = [None, None];
+    for slot in [SHARED, INTERNAL] {
+        let which = SLOT_NAMES[slot as usize];
+        let mine: Vec<&(u8, u8, u8, bool)> = attempts.iter().filter(|a| a.0 == slot).collect();
+        let winners: Vec<u8> = mine.iter().filter(|a| a.2 == 1).map(|a| a.1).collect();
+        if !mine.is_empty() {
+            vassert!(
+                cx,
+                !winners.is_empty(),
+                "no-initialiser-succeeded",
+                "{} slot: {} attempt(s), none reports success (tag, outcome 0 = None / 2 = panicked): {:?}; is_enabled() afterwards: {}",
+                which,
+                mine.len(),
+                mine.iter().map(|a| (a.1, a.2)).collect::<Vec<_>>(),
+                r.post_enabled[slot as usize]
+            );
+            vassert!(cx, winners.len() <= 1, "multiple-initialisers-succeeded", "{} slot: {} attempts, {:?} all report success", which, mine.len(), winners);
+        }
+        for a in &mine {
+            if a.2 != 1 {
+                vassert_eq!(cx, a.2, if a.3 { 2 } else { 0 }, "harness/loss-shape", "{} slot: initialiser #{}", which, a.1);
+            }
+        }
+        winner[slot as usize] = winners.first().copied();
+        vassert_eq!(cx, r.post_enabled[slot as usize], !mine.is_empty(), "post-race-enabled-mismatch", "{} slot: is_enabled() after {} attempt(s)", which, mine.len());
+        if c.first_slot().is_some() {
+            vassert_eq!(cx, r.mid_enabled[slot as usize], c.first_slot() == Some(slot), "post-race-enabled-mismatch", "{} slot: is_enabled() right after the main thread initialised the first slot", which);
         }
     }
 
@@ -509,16 +630,20 @@ fn judge(c: &GCase, r: &GReport, cx: &mut Cx) -> Res {
     for (i, a) in r.init_actors.iter().enumerate() {
         sent.extend(a.sent.iter().map(|s| (ACTOR_INIT_BASE + i as u32 + 1, s)));
     }
-    sent.extend(r.main_pre.sent.iter().map(|s| (ACTOR_MAIN_PRE, s)));
-    sent.extend(r.main_post.sent.iter().map(|s| (ACTOR_MAIN_POST, s)));
+    for slot in [SHARED, INTERNAL] {
+        sent.extend(r.main_pre[slot as usize].sent.iter().map(|s| (main_pre_id(slot), s)));
+        sent.extend(r.main_post[slot as usize].sent.iter().map(|s| (main_post_id(slot), s)));
+    }
 
-    // every event the winning emitter received came through all of the winner's components together
+    // every event a tagged emitter received came through all of the components of the winner of the slot it
+    // was sent to, together
     for e in &r.events {
-        let Some(w) = winner else {
-            return cx.fail("event-without-winner", format!("{which} slot: an event was recorded although no initialiser succeeded: {e:?}"));
-        };
         let Some((_, s)) = sent.iter().find(|(a, s)| *a == e.actor && s.seq == e.seq) else {
-            return cx.fail("harness/unattributed-event", format!("{which} slot: {e:?}"));
+            return cx.fail("harness/unattributed-event", format!("{e:?}"));
+        };
+        let which = SLOT_NAMES[s.slot as usize % 2];
+        let Some(w) = winner[s.slot as usize % 2] else {
+            return cx.fail("event-without-winner", format!("{which} slot: an event was recorded although no initialiser of that slot succeeded: {e:?}"));
         };
         // a call-site `when:` replaces the runtime's filter, so the winner's filter is legitimately not consulted
         let filter_ok = e.filter == Some(w) || (s.op == OP_WHEN && e.filter.is_none());
@@ -528,8 +653,9 @@ fn judge(c: &GCase, r: &GReport, cx: &mut Cx) -> Res {
             // two ways to get there: a reference taken before initialisation and used after it, or a fresh
             // reference whose emit was in flight while initialisation completed
             if s.early { "mixed-components/early-reference" } else { "mixed-components/in-flight-emit" },
-            "{} slot: an event reached the winning emitter #{} without passing through all of the winner's components (None = that component was not the winner's / was skipped): {:?}; sent as {:?} (early reference: {}, issued after is_enabled() was seen: {}, is_enabled() right after: {})",
+            "{} slot: an event reached emitter #{} without passing through all of the components of that slot's winner #{} (None = that component was not the winner's / was skipped): {:?}; sent as {:?} (early reference: {}, issued after is_enabled() was seen: {}, is_enabled() right after: {})",
             which,
+            e.emitter,
             w,
             e,
             s,
@@ -546,9 +672,10 @@ fn judge(c: &GCase, r: &GReport, cx: &mut Cx) -> Res {
     let mut straddle = false;
     let mut both_sides = false;
     for (actor, s) in &sent {
+        let which = SLOT_NAMES[s.slot as usize % 2];
         let n = count(*actor, s.seq);
         vassert!(cx, n <= 1, "event-duplicated", "{} slot: actor {} op {} was recorded {} times", which, actor, s.seq, n);
-        if *actor == ACTOR_MAIN_PRE {
+        if *actor == main_pre_id(SHARED) || *actor == main_pre_id(INTERNAL) {
             vassert!(cx, n == 0, "pre-init-recorder-touched", "{} slot: a pre-init operation of the main thread was recorded", which);
             continue;
         }
@@ -574,18 +701,26 @@ fn judge(c: &GCase, r: &GReport, cx: &mut Cx) -> Res {
     }
     cx.class_if(early_after, "global:early-reference-used-after-init");
     cx.class_if(straddle, "global:emit-straddles-init");
-    cx.class_if(both_sides && winner.is_some(), "global:used-before-and-after-init");
+    cx.class_if(both_sides && (winner[0].is_some() || winner[1].is_some()), "global:used-before-and-after-init");
     Ok(())
 }
 
 pub fn check_global(c: &GCase, cx: &mut Cx) -> Res {
     let (k, m) = (c.inits.len(), c.observers.len());
+    let on = |slot: u8| c.first_slot() == Some(slot) || (0..k).any(|i| c.init_slot(i) == slot);
+    let racing = |slot: u8| (0..k).filter(|i| c.init_slot(*i) == slot).count();
     cx.nontrivial(k >= 1 && m >= 1);
-    cx.class(if c.slot == 0 { "global:shared" } else { "global:internal" });
-    cx.class_if(k >= 2, "global:k>=2");
+    cx.class_if(on(SHARED) || (c.layout() == 0), "global:shared");
+    cx.class_if(on(INTERNAL) || (c.layout() == 1), "global:internal");
+    cx.class_if(on(SHARED) && on(INTERNAL), "global:both-slots");
+    cx.class_if(c.layout() == 2 && k >= 1, "global:internal-after-shared");
+    cx.class_if(c.layout() == 3 && k >= 1, "global:shared-after-internal");
+    cx.class_if(c.layout() == 4 && racing(SHARED) >= 1 && racing(INTERNAL) >= 1, "global:internal-concurrent-with-shared");
+    cx.class_if(racing(SHARED) >= 2 || racing(INTERNAL) >= 2, "global:k>=2");
     cx.class_if(k == 0, "global:k=0");
-    cx.class_if(c.observers.iter().any(|o| o.ref_mode % 4 == 3) && c.slot == 0, "global:macro-default-path");
+    cx.class_if((0..m).any(|i| c.observers[i].ref_mode % 4 == 3 && c.obs_slot(i) == SHARED), "global:macro-default-path");
     cx.class_if(c.observers.iter().any(|o| o.inner_spin > 0), "global:user-code-inside-emit");
+    cx.class_if(c.layout() >= 2 && (0..m).any(|i| c.obs_slot(i) == SHARED) && (0..m).any(|i| c.obs_slot(i) == INTERNAL), "global:observers-on-both-runtimes");
     let runs = if cx.replaying && RERUN_BUDGET.fetch_sub(2000, Ordering::Relaxed) >= 2000 { 10 } else { 1 };
     for _ in 0..runs {
         let report = match run_child(c) {
